@@ -67,7 +67,28 @@ func c08Decorate(r *core.Rand, d *gen.Out) (string, bool) {
 		}
 	}
 	var sb strings.Builder
-	for _, l := range ls {
+	crLine := -1
+	if r.Chance(1, 6) { // a record-summary / continuation line that consists of a bare carriage return (a non-blank character)
+		for i, li := range d.Lines {
+			if (li.Kind == gen.LRecSummary || li.Kind == gen.LEntryCont) && r.Chance(1, 3) {
+				crLine = i
+				break
+			}
+		}
+	}
+	for i, l := range ls {
+		if i == crLine {
+			ind := ""
+			if d.Lines[i].Kind == gen.LEntryCont {
+				ind = d.Layouts[d.Lines[i].Rec].Indent + d.Layouts[d.Lines[i].Rec].Indent
+			}
+			end := l.Ending
+			if end == "" {
+				end = "\n"
+			}
+			sb.WriteString(ind + "\r" + end)
+			changed = true
+		}
 		sb.WriteString(l.Text)
 		sb.WriteString(l.Ending)
 	}
